@@ -63,6 +63,11 @@ def one(typ, seed):
             # state names that are substrings / prefixes of each other (generated names beyond q9 look like this)
             pool = rng.choice([["q1", "q10", "q11", "q"], ["q", "q1", "qq", "q1q"], ["s2", "s", "s22", "2s"], ["x", "xy", "y", "yx"]])
             N = U.rename_fa(N, {q: pool[i] for i, q in enumerate(sorted(N.Q))})
+            if rng.random() < 0.6:
+                # exactly the states whose name is a proper substring of another state's name are accepting
+                sub = {q for q in N.Q if any(q != r and q in r for r in N.Q)}
+                if sub and sub != set(N.Q):
+                    N.F = set(sub)
         t = na.print_nfa(N)
         ref["nfa"] = ab.nfa(N)
         f = chk.write(tag + ".nfa", t)
